@@ -4,8 +4,7 @@
 // output buffer untouched; all other records of A equal B's (differential, "as if the call had
 // not been made"); caller-owned schedules keep their image across a rejected call; and the
 // whole transcript agrees with the API model (valid calls return 1).
-#include "gens.hpp"
-#include "model.hpp"
+#include "lifecycle.hpp"
 using namespace skv;
 
 struct C14 : Harness {
@@ -65,7 +64,7 @@ struct C14 : Harness {
         return rc::gen::exec([]() {
             if (*chance(25)) { Program p; sched_history(p); return p; }
             HistGen g;
-            g.o.invalid = true; g.o.midstream = true; g.o.lifecycle = true;
+            g.o.invalid = true; g.o.midstream = true; g.o.lifecycle = true; g.o.allocfail = true;
             int kind = *rc::gen::element((int)C128, (int)C64, (int)CM, (int)P128, (int)P64, (int)PM);
             auto bes = backends_for(kind);
             g.add_slot(kind, *rc::gen::elementOf(bes), *rc::gen::element(0, 0, 0xFF, 0xA5, 0x01));
@@ -78,7 +77,8 @@ struct C14 : Harness {
     }
 
     std::string run(const Program &p, Stats &st) override {
-        ExecOptions eo; eo.heap_buffers = heap;
+        MonHooks mha; mha.reset((int)(fnv64(ser(p)) % 3)); mha.check_live = false;
+        ExecOptions eo; eo.heap_buffers = heap; eo.hooks = &mha;
         Exec exa(api, eo);
         Transcript ta = exa.run(p);
         // (1) injected calls: return 0, output untouched, no monitor facts
@@ -106,11 +106,13 @@ struct C14 : Harness {
         // (2) twin without the injections
         Program q; std::vector<size_t> map;
         for (size_t i = 0; i < p.size(); ++i) if (!p[i].geti("inv")) { q.push_back(p[i]); map.push_back(i); }
-        Exec exb(api, eo);
+        MonHooks mhb; mhb.check_live = false; mhb.seen_double = skv_mon_double(); mhb.seen_foreign = skv_mon_foreign(); mhb.seen_nonzero = skv_mon_nonzero(); mhb.seen_failed = skv_mon_failed();
+        ExecOptions eob = eo; eob.hooks = &mhb;
+        Exec exb(api, eob);
         Transcript tb = exb.run(q);
         for (size_t j = 0; j < q.size(); ++j) {
             const Rec &a = ta[map[j]], &b = tb[j];
-            if (a.ret != b.ret || a.has_out != b.has_out || a.out != b.out || a.img != b.img || a.pub != b.pub)
+            if (a.ret != b.ret || a.has_out != b.has_out || a.out != b.out || a.img != b.img || a.pub != b.pub || a.err != b.err)
                 return "op #" + std::to_string(map[j]) + " [" + ser(q[j]).substr(0, 200) + "]: differs from the twin that never saw the invalid calls: A{" +
                        rec_str(a).substr(0, 300) + "} B{" + rec_str(b).substr(0, 300) + "}";
         }
